@@ -11,6 +11,7 @@ def getBehaviour (j : Json) : Except String Behaviour := do
   | "exit_at" => pure (.exitAt (← j.getObjValAs? Nat "k"))
   | "ignore_term" => pure .ignoreTerm
   | "never_reads" => pure .neverReads
+  | "stops_reading" => pure .stopsReading
   | "flood" => pure .flood
   | "close_stdout" => pure .closeStdout
   | "close_stdin" => pure .closeStdin
@@ -35,7 +36,7 @@ def getMoment (j : Json) : Except String Moment := do
 def stateName : ChildState → String
   | .running => "running" | .zombie => "zombie" | .reaped => "reaped"
 
-/-- {"m":"shutdown","bad":true} | {"m":"shutdown","behaviour":…,"k"?:n,"path":…,"moment":…,"nreq"?:n,"killDelay"?:ms}
+/-- {"m":"shutdown","bad":true} | {"m":"shutdown","behaviour":…,"k"?:n,"path":…,"moment":…|"entry","nreq"?:n,"backlog"?:bytes,"killDelay"?:ms}
  -> {"raised_on_enter":bool,"child":…,"duration":ms,"bound":ms,"signals":[[t,"term"|"kill"]],"requests":["returned"|"timeout",…]} -/
 def handle (j : Json) : Except String Json := do
   let os : OS := { killDelay := (j.getObjValAs? Nat "killDelay").toOption.getD 5, waitReaps := true }
@@ -44,19 +45,34 @@ def handle (j : Json) : Except String Json := do
     return Json.mkObj [("raised_on_enter", Json.bool s.raisedOnEnter), ("child", Json.null)]
   let b ← getBehaviour j
   let p ← getPath j
+  if (← j.getObjValAs? String "moment") == "entry" then
+    -- cancellation while the context is being entered: is there a point at which it leaves a child running?
+    let pts := [CancelPoint.beforeSpawn, .duringSpawn, .afterSpawn, .inBody]
+    let orphan := pts.any (fun cp => cancelledEntry Design.sound cp == some Leftover.running)
+    let body := leave Design.sound os p (childSpec b .before) { backlog := 0, capacity := 131072 }
+    let ok := match body with
+      | some t => t.child == ChildState.reaped && decide (t.duration ≤ graceTermMs + graceKillMs)
+      | none => false
+    return Json.mkObj [("raised_on_enter", Json.bool false), ("entry", Json.bool true),
+      ("child", Json.str (if orphan || !ok then "running" else "reaped")), ("bounded", Json.bool ok)]
   let m ← getMoment j
-  let s := session true os .started p (childSpec b m)
+  let load : Load := { backlog := (j.getObjValAs? Nat "backlog").toOption.getD 0,
+                       capacity := (j.getObjValAs? Nat "capacity").toOption.getD 131072 }
   let reqs := match m with
     | .after n => (List.range n).map (fun i => if answers b (i + 1) then "returned" else "timeout")
     | _ => []
-  match s.trace with
-  | none => throw "no trace"
+  match leave Design.sound os p (childSpec b m) load with
+  | none =>
+    return Json.mkObj [("raised_on_enter", Json.bool false), ("child", Json.str "running"),
+      ("returns", Json.bool false), ("bounded", Json.bool false), ("requests", toJson reqs)]
   | some t =>
     return Json.mkObj [
-      ("raised_on_enter", Json.bool s.raisedOnEnter),
+      ("raised_on_enter", Json.bool false),
+      ("returns", Json.bool true),
       ("child", Json.str (stateName t.child)),
       ("duration", toJson t.duration),
       ("bound", toJson (graceTermMs + graceKillMs)),
+      ("bounded", Json.bool (decide (t.duration ≤ graceTermMs + graceKillMs))),
       ("signals", Json.arr (t.signals.map (fun (at_, sg) =>
           Json.arr #[toJson at_, Json.str (match sg with | .term => "term" | .kill => "kill")])).toArray),
       ("requests", toJson reqs)]
